@@ -60,6 +60,13 @@ def cmp_la(ctx, op, py, mo, tol, replay):
     if py[0] in ("assert", "exc"):
         if not model_err:
             bad("python-raises-model-returns", py[1])
+        else:
+            # code and model refuse alike.  That is agreement, not yet the property: products, conjugates, negatives and
+            # scalar multiples of algebra elements always exist (only a SUM of an even and an odd element does not), so a
+            # refusal shared by both is a defect the model merely mirrors
+            ctx.count("refused-by-both:" + op)
+            if op not in ("add", "sub", "addp"):
+                bad("refused-by-code-and-model", "the operation is defined for every pair of elements, yet both refuse: %s / %s" % (py[1], mo))
         return
     if model_err:
         bad("model-refuses-python-returns")
